@@ -70,6 +70,29 @@ Fixpoint elem_axial (ez : Q) (gs : list gauss) (rs us : list Q) (ds : list (list
   end.
 (* axial force = 2 pi * elem_axial; pi is supplied by the caller *)
 
+(* the same equilibrium statement for stresses that are given (any material): internal force of the stored
+   stresses minus the pressure on the inner node *)
+Fixpoint elem_forces_s (gs : list gauss) (rs : list Q) (ss : list (list (Q * Q * Q))) : list (Q * Q) :=
+  match rs, ss with
+  | r0 :: ((r1 :: _) as rs'), s :: ss' =>
+      let fs := map (fun gd => gp_force r0 r1 (fst gd) (snd gd)) (combine gs s) in
+      (sumQ (map fst fs), sumQ (map snd fs)) :: elem_forces_s gs rs' ss'
+  | _, _ => []
+  end.
+
+Definition residual_s (p : Q) (gs : list gauss) (rs : list Q) (ss : list (list (Q * Q * Q))) : list Q :=
+  match assemble 0 (elem_forces_s gs rs ss) with
+  | [] => []
+  | f0 :: r => (f0 - p) :: r
+  end.
+
+Fixpoint elem_axial_s (gs : list gauss) (rs : list Q) (ss : list (list (Q * Q * Q))) : Q :=
+  match rs, ss with
+  | r0 :: ((r1 :: _) as rs'), s :: ss' =>
+      sumQ (map (fun gd => gp_axial r0 r1 (fst gd) (snd gd)) (combine gs s)) + elem_axial_s gs rs' ss'
+  | _, _ => 0
+  end.
+
 (* all stresses, element by element, point by point *)
 Fixpoint all_stresses (ez : Q) (gs : list gauss) (rs us : list Q) (ds : list (list gpdata)) : list (list (Q * Q * Q)) :=
   match rs, us, ds with
